@@ -89,3 +89,168 @@ def eval_function(fi, args, atoms=None):
     if r is None:
         raise AnalysisError('%s: no return reached' % fi.qual)
     return r
+
+
+# ---------------------------------------------------------------------------
+# General straight-line evaluation with stores to attributes / subscripts,
+# recorded calls and tests decided by a table of source texts.
+
+class Run:
+    """Result of run_function: env {source text: Rat}, calls [(name, [Rat],
+    {kw: Rat}, node)], ret (Rat or None)."""
+
+    def __init__(self):
+        self.env = {}
+        self.calls = []
+        self.ret = None
+        self.ret_node = None
+
+    def call(self, suffix):
+        return [c for c in self.calls if c[0] and c[0].endswith(suffix)]
+
+
+def _norm(n):
+    return ' '.join(src(n).split())
+
+
+def _conv(node, atoms, env):
+    """poly.from_ast with text-keyed env for any sub-expression and the
+    NumPy constants np.ones(k) -> 1, np.zeros(k) -> 0 (element-wise view)."""
+    from fractions import Fraction
+    from . import util as U
+
+    def rec(n):
+        s = _norm(n)
+        if s in atoms:
+            return Rat.sym(atoms[s])
+        if s in env:
+            return env[s]
+        c = const(n)
+        if isinstance(c, (int, float)) and not isinstance(c, bool):
+            return Rat.const(Fraction(str(c)))
+        if isinstance(n, ast.UnaryOp) and isinstance(n.op, ast.USub):
+            return -rec(n.operand)
+        if isinstance(n, ast.UnaryOp) and isinstance(n.op, ast.UAdd):
+            return rec(n.operand)
+        if isinstance(n, ast.BinOp):
+            if isinstance(n.op, ast.Pow):
+                e = const(n.right)
+                if isinstance(e, int):
+                    return rec(n.left) ** e
+                raise NotPolynomial(s)
+            l, r = rec(n.left), rec(n.right)
+            if isinstance(n.op, ast.Add):
+                return l + r
+            if isinstance(n.op, ast.Sub):
+                return l - r
+            if isinstance(n.op, ast.Mult):
+                return l * r
+            if isinstance(n.op, ast.Div):
+                return l / r
+        if isinstance(n, ast.Call):
+            nm = _norm(n.func)
+            if nm in ('np.ones', 'numpy.ones', 'np.ones_like'):
+                return Rat.const(1)
+            if nm in ('np.zeros', 'numpy.zeros', 'np.zeros_like'):
+                return Rat.const(0)
+            if nm in ('np.sum', 'numpy.sum', 'sum') and len(n.args) == 1 \
+                    and not n.keywords:
+                # linear functional, kept formal: SUM * (element-wise value)
+                return Rat.sym('<SUM>') * rec(n.args[0])
+            if nm in ('float', 'np.array', 'np.asarray', 'np.float64') \
+                    and len(n.args) == 1 and not n.keywords:
+                return rec(n.args[0])
+        if isinstance(n, (ast.Name, ast.Attribute, ast.Subscript, ast.Call)):
+            return Rat.sym('<%s>' % s)
+        raise NotPolynomial(s)
+    return rec(node)
+
+
+def run_function(fi, flags, atoms=None, body=None):
+    """Evaluate the path of fi selected by `flags` ({source text of a test or
+    sub-test: bool}).  Supported: assignments (names, attributes, subscripts
+    -- keyed by source text), augmented assignments, if, expression
+    statements (calls are recorded with evaluated arguments), return.
+    Anything else raises AnalysisError."""
+    from . import util as U
+    atoms = atoms or {}
+    out = Run()
+    env = out.env
+
+    def conv(e):
+        try:
+            return _conv(e, atoms, env)
+        except NotPolynomial as ex:
+            raise AnalysisError('%s: not polynomial arithmetic: %s'
+                                % (fi.qual, ex))
+
+    def record(call):
+        args, kws = [], {}
+        for a in call.args:
+            try:
+                args.append(_conv(a, atoms, env))
+            except NotPolynomial:
+                args.append(None)
+        for k in call.keywords:
+            try:
+                kws[k.arg] = _conv(k.value, atoms, env)
+            except NotPolynomial:
+                kws[k.arg] = None
+        out.calls.append((_norm(call.func), args, kws, call))
+
+    def block(stmts):
+        for st in stmts:
+            if isinstance(st, ast.Expr):
+                v = st.value
+                if isinstance(v, ast.Tuple) and len(v.elts) == 1:
+                    v = v.elts[0]           # `f(x),` stray trailing comma
+                if isinstance(v, ast.Call):
+                    record(v)
+                continue
+            if isinstance(st, ast.Pass):
+                continue
+            if isinstance(st, ast.Assign) and len(st.targets) == 1 and \
+                    isinstance(st.targets[0], (ast.Name, ast.Attribute,
+                                               ast.Subscript)):
+                if isinstance(st.value, ast.Call):
+                    record(st.value)
+                env[_norm(st.targets[0])] = conv(st.value)
+                continue
+            if isinstance(st, ast.AugAssign) and isinstance(
+                    st.target, (ast.Name, ast.Attribute, ast.Subscript)):
+                key = _norm(st.target)
+                cur = env.get(key)
+                if cur is None:
+                    cur = conv(st.target)
+                v = conv(st.value)
+                if isinstance(st.op, ast.Add):
+                    env[key] = cur + v
+                elif isinstance(st.op, ast.Sub):
+                    env[key] = cur - v
+                elif isinstance(st.op, ast.Mult):
+                    env[key] = cur * v
+                elif isinstance(st.op, ast.Div):
+                    env[key] = cur / v
+                else:
+                    raise AnalysisError('%s: operator in %s' % (
+                        fi.qual, _norm(st)[:60]))
+                continue
+            if isinstance(st, ast.If):
+                v = U.eval_test(st.test, flags)
+                if v is None:
+                    raise AnalysisError('%s: branch `%s` not decided by %s'
+                                        % (fi.qual, _norm(st.test),
+                                           sorted(flags)))
+                if block(st.body if v else st.orelse):
+                    return True
+                continue
+            if isinstance(st, ast.Return):
+                out.ret_node = st
+                out.ret = conv(st.value) if st.value is not None else None
+                return True
+            raise AnalysisError('%s: statement not supported by the '
+                                'algebraic evaluator: %s'
+                                % (fi.qual, _norm(st)[:60]))
+        return False
+    block(body if body is not None else fi.node.body)
+    return out
